@@ -30,6 +30,7 @@ type VerifEntry struct {
 	Set      []string          // sorted members
 	ZSet     map[string]float64
 	ExpireAt int64 // unix ms, 0 = none
+	Expired  bool  // the entry carries a deadline that the server clock has passed (not collected yet)
 	Mem      int64 // what the entry contributes to the memory figure (KeyData.GetMem + key header + key bytes)
 }
 
@@ -80,6 +81,7 @@ func (server *SugarDB) VerifDump() VerifState {
 			e := VerifEntry{}
 			if kd.ExpireAt != (time.Time{}) {
 				e.ExpireAt = kd.ExpireAt.UnixMilli()
+				e.Expired = kd.ExpireAt.Before(server.clock.Now())
 			}
 			switch v := kd.Value.(type) {
 			case []string:
